@@ -637,13 +637,14 @@ func runScenario(t *testing.T, sc *scenario, scan bool) *result {
 type finding struct{ sig, desc string }
 
 type stats struct {
-	winner, cancelled, joined, noAddress bool
-	lateClosed, timeouts, afterDecision  int
-	maxInflight, wakeStarts, wakeOld     int
-	cancelJoin                           int
-	attempts                             int
-	retries, rejNoCfg                    int // attempts with an ECH retry invocation; rejections without configs left alone
-	retrySameDeadline, retryTimeouts     int // retry invocations under the attempt's own deadline; retries cut off at attempt start + Timeout
+	winner, cancelled, joined, noAddress            bool
+	lateClosed, timeouts, afterDecision             int
+	maxInflight, wakeStarts, wakeOld                int
+	cancelJoin                                      int
+	attempts                                        int
+	retries, rejNoCfg                               int // attempts with an ECH retry invocation; rejections without configs left alone
+	retrySameDeadline, retryTimeouts                int // retry invocations under the attempt's own deadline; retries cut off at attempt start + Timeout
+	boundShownByDeadline, boundNotVisibleInDeadline int // invocations whose ctx.Deadline() equals attempt start + Timeout / does not
 }
 
 func fmtD(d time.Duration) string { return fmt.Sprintf("%gms", float64(d)/1e6) }
@@ -873,27 +874,33 @@ func check(sc *scenario, res *result) (fs []finding, incon []string, st stats) {
 			if j == 0 && o.Rej != rejNone {
 				honours = true
 			}
+			// What ctx.Deadline() says can prove that the bound is in place (a deadline at start + Timeout) or that the
+			// attempt will be cut short (an earlier one). It cannot refute the bound: an implementation may enforce
+			// the Timeout with a timer that cancels the context, which then shows no deadline of its own or only the
+			// caller's. Whether the bound holds is judged on the attempts that wait for their context to end (below).
 			switch {
-			case !iv.hasDL:
-				add("timeout:no-deadline", "%s dialled at %s with a context without deadline (Timeout %s)", what, fmtD(iv.sAt), fmtD(T))
-			case iv.dl > want && j > 0:
-				add("timeout:retry-deadline-restarted", "%s was dialled at %s with context deadline %s; the attempt is bounded by its start + Timeout %s = %s",
-					what, fmtD(iv.sAt), fmtD(iv.dl), fmtD(T), fmtD(want))
-			case iv.dl > want:
-				add("timeout:deadline-late", "%s dialled at %s with context deadline %s, want %s (Timeout %s)", what, fmtD(iv.sAt), fmtD(iv.dl), fmtD(want), fmtD(T))
-			case iv.dl < want:
+			case iv.hasDL && iv.dl < want:
 				add("timeout:deadline-early", "%s dialled at %s with context deadline %s, want %s (Timeout %s)", what, fmtD(iv.sAt), fmtD(iv.dl), fmtD(want), fmtD(T))
-			default:
+			case iv.hasDL && iv.dl == want:
+				st.boundShownByDeadline++
 				if j > 0 {
 					st.retrySameDeadline++
+				}
+			default:
+				st.boundNotVisibleInDeadline++
+				if j > 0 {
+					st.retrySameDeadline++ // entered with a live context; whether the attempt's bound still applies shows below
 				}
 			}
 			if honours {
 				if !iv.finished {
 					add("timeout:not-released", "%s (invocation started %s) never saw its context end", what, fmtD(iv.sAt))
+				} else if iv.fAt > want && j > 0 {
+					add("timeout:retry-deadline-restarted", "%s (invocation started %s) was released at %s; the attempt as a whole is bounded by its start + Timeout %s = %s",
+						what, fmtD(iv.sAt), fmtD(iv.fAt), fmtD(T), fmtD(want))
 				} else if iv.fAt > want {
 					add("timeout:not-released", "%s (invocation started %s) was released at %s, after attempt start + Timeout = %s", what, fmtD(iv.sAt), fmtD(iv.fAt), fmtD(want))
-				} else if j == len(a.inv)-1 && !iv.ok && iv.fAt == a.sAt+T && errors.Is(res.finErr[k], context.DeadlineExceeded) {
+				} else if j == len(a.inv)-1 && !iv.ok && iv.fAt == a.sAt+T { // cut off by the Timeout (whatever error value the context then reports)
 					st.timeouts++
 					if j > 0 {
 						st.retryTimeouts++
